@@ -1,6 +1,8 @@
 import N0Verif.Proofs.Tlv
 import N0Verif.Proofs.Fwf
 import N0Verif.Proofs.TlvGenEq
+import N0Verif.Proofs.TlvGenWriterEq
+import N0Verif.Proofs.FwfGenEq
 /-!
 # C16 — positional record codecs (TLV, fixed-width) round-trip, refuse, and terminate
 
@@ -303,6 +305,62 @@ theorem C16_tlv_terminates_generated (s : Str) (tl ll : Nat) :
   refine ⟨?_, by simpa [TlvGenEq.viewRes] using h2⟩
   rcases h1 with h1 | h1 <;> simp [TlvGenEq.viewRes, TlvGenEq.statusOpt, h1]
 
+/-! ## the definitions regenerated from the Python source of `generate_tlv` equal the hand-written model
+
+`Gen/TlvGenPy.lean` is rewritten by `harness/translate_py_tlvgen.py` on every run (the element of the generator
+expression, the `''.join(… for …)`, the statements in front of the `return`); these theorems are re-checked against the
+new text.  Scope, as in the model: field widths are natural numbers, the paddings are single characters (the
+translated code takes them as `str`: `[tp]`, `[lp]`). -/
+
+/-- **generated entry = model entry**: the width checks (which one raises, in which order), `ljust` of the tag,
+`rjust` of the decimal length, the concatenation -/
+theorem C16_generated_gen_entry_eq (d : List (Str × Str)) (tl ll : Nat) (tp lp : Char) (tag value : Str) :
+    Gen.TlvGenPy.GenerateTlv.entry d tl ll [tp] [lp] tag value = genEntry tl ll tp lp tag value :=
+  TlvGenWriterEq.entry_eq d tl ll tp lp tag value
+
+/-- **generated `''.join(entry for tag, value in d.items())` = model**, for every list of entries -/
+theorem C16_generated_gen_entries_eq (d0 d : List (Str × Str)) (tl ll : Nat) (tp lp : Char) :
+    Gen.TlvGenPy.joinMapE (fun p => Gen.TlvGenPy.GenerateTlv.entry d0 tl ll [tp] [lp] p.1 p.2) d
+      = genEntries tl ll tp lp d :=
+  TlvGenWriterEq.entries_eq d0 tl ll tp lp d
+
+/-- **generated readability guard = `lenPadOk`**: the statements in front of the `return` raise `AssertionError`
+exactly when the probe of the one-character `len_padding` fails (widths and tag padding are not looked at) -/
+theorem C16_generated_gen_guard_eq (d : List (Str × Str)) (tl ll : Int) (tp : Str) (lp : Char) :
+    Gen.TlvGenPy.GenerateTlv.guard d tl ll tp [lp] = if lenPadOk lp then .ok () else .error .AssertionError :=
+  TlvGenWriterEq.guard_eq d tl ll tp lp
+
+/-- a `len_padding` that is not one character is not probed by the generated guard -/
+theorem C16_generated_gen_guard_skips (d : List (Str × Str)) (tl ll : Int) (tp lp : Str) (h : lp.length ≠ 1) :
+    Gen.TlvGenPy.GenerateTlv.guard d tl ll tp lp = .ok () :=
+  TlvGenWriterEq.guard_skips d tl ll tp lp h
+
+/-- **generated `generate_tlv` = model `generateTlv`** -/
+theorem C16_generated_gen_eq (d : List (Str × Str)) (tl ll : Nat) (tp lp : Char) :
+    Gen.TlvGenPy.generateTlv d tl ll [tp] [lp] = generateTlv tl ll tp lp d :=
+  TlvGenWriterEq.generateTlv_eq d tl ll tp lp
+
+/-! ## fragments of `parse_fwf_row` / `generate_fwf_row` regenerated from the Python source equal the hand-written model
+
+`Gen/FwfPy.lean` is rewritten by `harness/translate_py_fwf.py` on every run: the statements of the column loop of
+`parse_fwf_row` that compute `column_value` from offset / width / till, and the statements of the column loop of
+`generate_fwf_row` that render the selected value into `rendered_row`.  Scope, as in the model: natural numbers (or
+`None`) for offsets, widths, sizes. -/
+
+/-- **generated slice computation = `colValue`**: which of offset / width / till decide, `till` defaulting to
+`offset + width`, the slice `incoming_row[offset:till]`; it never raises -/
+theorem C16_generated_fwf_slice_eq (row : Str) (c : PCol) :
+    Gen.FwfPy.ParseFwfRow.colValue row (c.offset.map Int.ofNat) (c.width.map Int.ofNat) (c.till.map Int.ofNat)
+      = .ok (colValue row c) :=
+  FwfGenEq.colValue_eq row c
+
+/-- **generated cell rendering = `place`**: `str()` of the value, `zfill` for `type == 'int'` else `ljust`, truncation
+to `size`, splice between `rendered_row[:offset]` and `rendered_row[till:]` (`ty` = `column_format.get('type')`) -/
+theorem C16_generated_gen_fwf_cell_eq (c : GCol) (v : Val) (r : Str) (ty : Option Str)
+    (h : c.isInt = decide (ty = some "int".toList)) :
+    Gen.FwfPy.GenerateFwfRow.place r v c.size c.offset c.till ty = place c v r :=
+  FwfGenEq.place_eq c v r ty h
+
 /-! Non-vacuity -/
 example : pyInt [] = none := by decide
 example : pyInt " +1_0\t".toList = some 10 := by decide
@@ -586,5 +644,34 @@ example : parseRow "-007.abc".toList (exLayout.map (readBack true)) true
 example : Gen.TlvPy.parseTlv "A 001xBB011hello world".toList 2 3 23
     = ([("A ".toList, 1, "x".toList), ("BB".toList, 11, "hello world".toList)], none) := by decide +kernel
 example : (Gen.TlvPy.parseTlv "AA-05".toList 2 3 6).2 = some .ValueError := by decide +kernel
+
+-- the generated writer: both width checks, both paddings, the guard (accepting, refusing, skipping)
+example : Gen.TlvGenPy.GenerateTlv.entry [] 2 3 [' '] ['0'] "A".toList "hello world".toList
+    = .ok "A 011hello world".toList := by decide +kernel
+example : Gen.TlvGenPy.GenerateTlv.entry [] 2 3 [' '] ['0'] "ABC".toList "x".toList = .error .AssertionError := by
+  decide +kernel
+example : Gen.TlvGenPy.GenerateTlv.entry [] 2 1 [' '] ['0'] "A".toList "hello world".toList
+    = .error .AssertionError := by decide +kernel
+example : Gen.TlvGenPy.GenerateTlv.guard [] 2 3 [' '] ['0'] = .ok () := by decide +kernel
+example : Gen.TlvGenPy.GenerateTlv.guard [] 2 3 [' '] ['x'] = .error .AssertionError := by decide +kernel
+example : Gen.TlvGenPy.GenerateTlv.guard [] 2 3 [' '] "xy".toList = .ok () := by decide +kernel
+example : Gen.TlvGenPy.generateTlv [("A".toList, "x".toList), ("BB".toList, "hello world".toList)] 2 3 [' '] [' ']
+    = .ok "A   1xBB 11hello world".toList := by decide +kernel
+example : Gen.TlvGenPy.generateTlv [("A".toList, "x".toList), ("BBB".toList, "y".toList)] 2 3 [' '] ['0']
+    = .error .AssertionError := by decide +kernel
+
+-- the generated fragments of the fixed-width codec: by width, by till (till wins), no position; int and text cells
+example : Gen.FwfPy.ParseFwfRow.colValue "-007.abc".toList (some 5) (some 3) none = .ok (some "abc".toList) := by
+  decide +kernel
+example : Gen.FwfPy.ParseFwfRow.colValue "-007.abc".toList (some 0) (some 2) (some 4) = .ok (some "-007".toList) := by
+  decide +kernel
+example : Gen.FwfPy.ParseFwfRow.colValue "-007.abc".toList none (some 3) (some 4) = .ok none := by decide +kernel
+example : Gen.FwfPy.ParseFwfRow.colValue "-007.abc".toList (some 1) none none = .ok none := by decide +kernel
+example : Gen.FwfPy.GenerateFwfRow.place "........".toList (.int (-7)) 4 0 4 (some "int".toList)
+    = .ok "-007....".toList := by decide +kernel
+example : Gen.FwfPy.GenerateFwfRow.place "........".toList (.str "abcdef".toList) 3 5 8 none
+    = .ok ".....abc".toList := by decide +kernel
+example : Gen.FwfPy.GenerateFwfRow.place "........".toList (.str "a".toList) 3 5 8 (some "str".toList)
+    = .ok ".....a  ".toList := by decide +kernel
 
 end N0.C16
